@@ -64,8 +64,10 @@ def op_txt(op):
         return "LEN %s" % p
     if n == "HOP":
         return "HANDLE%s %s" % (op["h"], op_txt(dict(op["sub"], path=[])))
-    if n == "LOADU":
+    if n in ("LOADU", "EDITSRC"):  # a caller-side in-place edit of a level's dict = that level replaced, not yet merged
         return "LOADU %s %s" % (op["slot"], enc(op["data"]))
+    if n == "LOADSAME":
+        return "LOAD %s %s" % (op["slot"], enc(op["data"]))
     if n == "MERGE":
         return "MERGE"
     if n in ("RUNTIME", "PROJECT"):  # set_runtime_path / set_project_location + load_*: the level is replaced
@@ -172,6 +174,41 @@ def make_sub(extra):
     return Sub
 
 
+UPDATE_SHAPES = ("dict", "list", "tuple", "items", "zip", "gen", "iter", "map", "sub", "odict")
+
+
+def shaped(m, shape):
+    """the positional argument of `update()` in one of the shapes `dict.update` accepts (freshly materialised)"""
+    pairs = list(m.items())
+    if shape == "dict":
+        return dict(pairs)
+    if shape == "list":
+        return [list(p) if i % 2 else p for i, p in enumerate(pairs)]  # (pairs as tuples and as 2-lists)
+    if shape == "tuple":
+        return tuple(pairs)
+    if shape == "items":
+        return dict(pairs).items()
+    if shape == "zip":
+        return zip([k for k, _ in pairs], [v for _, v in pairs])
+    if shape == "gen":
+        return ((k, v) for k, v in pairs)
+    if shape == "iter":
+        return iter(pairs)
+    if shape == "map":
+        return map(lambda kv: (kv[0], kv[1]), pairs)
+    if shape == "sub":
+        class Settings(dict):
+            pass
+        return Settings(pairs)
+    if shape == "odict":
+        import collections
+        return collections.OrderedDict(pairs)
+    if shape == "proxy":  # another configuration object used as the mapping (dict.update accepts it: it has keys())
+        from invoke.config import Config
+        return Config(defaults=dict(pairs), lazy=True, **NOFILES)
+    raise ValueError("unknown update shape " + shape)
+
+
 def apply_share(d, share):
     """share = {"pairs": [[src path, dst path], ...], "top": [top-level keys in order]}: the same dict object at
     both paths; the top-level key ORDER is part of the case (it decides which occurrence a merge walks second) and is
@@ -216,6 +253,7 @@ class Impl:
         self.colls = []  # (root collection, task path, expected configuration)
         self.classes = {}  # clone targets by index
         self.nfiles = 0
+        self.level_src = {}  # (object, slot) -> the caller-held dict currently serving as that level
         self.handles = {}   # held proxy handles: id -> {"p": proxy, "o": object, "keys": key path, "alive": bool}
         self.stale = set()  # objects whose view is knowingly unmerged (load_*(merge=False) just happened)
         self.violation = None  # what an edit through a held handle failed to do (see _handle_op)
@@ -285,8 +323,9 @@ class Impl:
         n = op["op"]
         if n == "NEW":
             sh = op.get("share", {})
-            c = Config(defaults=self.hand("defaults", op["defaults"], sh.get("defaults")),
-                       overrides=self.hand("overrides", op["overrides"], sh.get("overrides")), lazy=True, **NOFILES)
+            d0, o0 = self.hand("defaults", op["defaults"], sh.get("defaults")), self.hand("overrides", op["overrides"], sh.get("overrides"))
+            c = Config(defaults=d0, overrides=o0, lazy=True, **NOFILES)
+            self.level_src[(len(self.objs), "defaults")], self.level_src[(len(self.objs), "overrides")] = d0, o0
             self.objs.append(c)
             return ABSENT
         if n == "NEWF":
@@ -297,6 +336,7 @@ class Impl:
                 d = self.from_collection(op["data"])
             else:
                 d = self.hand(op["slot"], op["data"], op.get("share", {}).get("data"))
+            self.level_src[(op.get("o", 0), op["slot"])] = d
             {"defaults": c.load_defaults, "overrides": c.load_overrides, "collection": c.load_collection}[op["slot"]](d)
             return ABSENT
         if n == "ENV":
@@ -305,8 +345,28 @@ class Impl:
             return ABSENT
         if n == "LOADU":
             d = self.hand(op["slot"], op["data"], op.get("share", {}).get("data"))
+            self.level_src[(op.get("o", 0), op["slot"])] = d
             {"defaults": c.load_defaults, "overrides": c.load_overrides, "collection": c.load_collection}[op["slot"]](
                 d, merge=False)
+            return ABSENT
+        if n == "EDITSRC":
+            # the CALLER edits, in place, the dict it handed over as this level earlier (its own data: legitimate)
+            held = self.level_src.get((op.get("o", 0), op["slot"]))
+            if held is None:
+                return "E:key"
+            if "v" in op:
+                set_total(held, op["keys"], op["v"])
+            else:
+                del_total(held, op["keys"])
+            for i, (label, h2, snap) in enumerate(self.sources):
+                if h2 is held:
+                    self.sources[i] = (label, h2, copy.deepcopy(h2))
+            return ABSENT
+        if n == "LOADSAME":
+            held = self.level_src.get((op.get("o", 0), op["slot"]))
+            if held is None:
+                return "E:key"
+            {"defaults": c.load_defaults, "overrides": c.load_overrides, "collection": c.load_collection}[op["slot"]](held)
             return ABSENT
         if n == "MERGE":
             c.merge()
@@ -386,7 +446,7 @@ class Impl:
         if n == "UPD":
             kw = copy.deepcopy(op.get("kw", {}))
             if "m" in op:
-                p.update(copy.deepcopy(op["m"]), **kw)
+                p.update(shaped(copy.deepcopy(op["m"]), op.get("shape", "dict")), **kw)
             else:
                 p.update(**kw)
             return ABSENT
@@ -494,7 +554,7 @@ class Impl:
                 return
             src, keys = op["sub"], hd["keys"]
         n = src["op"]
-        merging = n in ("LOAD", "MERGE", "ENV", "RUNTIME", "PROJECT", "SI", "SA", "DI", "DA", "PI")
+        merging = n in ("LOAD", "LOADSAME", "MERGE", "ENV", "RUNTIME", "PROJECT", "SI", "SA", "DI", "DA", "PI")
         sec = get_path(self._before, keys) if self._before is not None else ABSENT
         if n == "SD":
             merging = not (isinstance(sec, dict) and src.get("k") in sec)
@@ -510,8 +570,8 @@ class Impl:
     def after_op(self, op, r=ABSENT):
         """bookkeeping after every operation: which objects are knowingly unmerged, which handles' sections still exist"""
         o = op.get("o", 0)
-        if op["op"] == "LOADU":
-            self.stale.add(o)
+        if op["op"] in ("LOADU", "EDITSRC"):
+            self.stale.add(o)  # reads until the next merge are unconstrained
             return
         if r.startswith("E:"):
             return  # an operation that raised (absent key) did not re-merge anything
@@ -576,8 +636,9 @@ class Impl:
         for s, stem in stems.items():
             if op[s] is not None:
                 files[s] = write_level_file(stem, op[s], sh.get(s))
-        c = Config(defaults=self.hand("defaults", op["defaults"], sh.get("defaults")),
-                   overrides=self.hand("overrides", op["overrides"], sh.get("overrides")),
+        d0, o0 = self.hand("defaults", op["defaults"], sh.get("defaults")), self.hand("overrides", op["overrides"], sh.get("overrides"))
+        self.level_src[(len(self.objs), "defaults")], self.level_src[(len(self.objs), "overrides")] = d0, o0
+        c = Config(defaults=d0, overrides=o0,
                    system_prefix=os.path.join(base, "sys", ""), user_prefix=os.path.join(base, "usr", ""),
                    project_location=os.path.join(base, "proj"), runtime_path=files.get("runtime", stems["runtime"] + ".json"),
                    lazy=False)
@@ -755,7 +816,7 @@ class Ref:
         if n == "ENV":
             self.load_env(op["env"])
             return ABSENT
-        if n == "LOADU":
+        if n in ("LOADU", "EDITSRC", "LOADSAME"):
             self.reload(op["slot"], op["data"])
             return ABSENT
         if n == "MERGE":
